@@ -508,7 +508,10 @@ class Theory:
                 self.extend_constant(ext)
             elif ext.is_theorem():
                 if ext.prf:
-                    self.check_proof(ext.prf)
+                    # The proof must be free of gaps and prove the stated theorem.
+                    res_th = self.check_proof(ext.prf, no_gaps=True)
+                    if res_th is None or not res_th.can_prove(ext.th):
+                        raise CheckProofException("proof of %s shows\n%s\n instead of\n%s" % (ext.name, res_th, ext.th))
                 else:  # No proof - add as axiom
                     ext_report.add_axiom(ext.name, ext.th)
 
